@@ -32,6 +32,7 @@ macro_rules! dispatch {
             "C13" => $f(&props::fzn::FznProp $(, $arg)*),
             "C14" => $f(&props::dimacs::CnfProp $(, $arg)*),
             "C15" => $f(&props::dimacs::WcnfProp $(, $arg)*),
+            "C16" => $f(&props::arith::ArithProp $(, $arg)*),
             "C17" => $f(&props::expl::ExplProp $(, $arg)*),
             "C18" => $f(&props::branch::BranchProp $(, $arg)*),
             "C19" => $f(&props::drcp::DrcpProp $(, $arg)*),
